@@ -56,90 +56,126 @@ def linear_rows(mp, polys, n, k, bufname='data'):
     return rows, None
 
 
+class _Broke(list):
+    pass
+
+
+def _ntt_one(L, qs, n):
+    """clauses A-D for one dimension; returns (n, {clause: detail}, rows checked, [analysis problems])"""
+    nchk = 0
+    broke = []
+    bad = {}
+    try:
+        c = Ctx(L, 'accel', expand=True, trusted=TRUSTED, values=True)
+        pre = c.construct('q120_new_ntt_bb_precomp', [n])
+        ipre = c.construct('q120_new_intt_bb_precomp', [n])
+        data = c.buf('data', 32 * n, 'inout')
+        st, _, _ = c.run('q120_ntt_bb_avx2', [pre, data])
+        del c.m.events[:]
+        fwd = dict(getattr(data.obj, 'vstore', {}))
+        st2, _, _ = c.run('q120_intt_bb_avx2', [ipre, data])
+        del c.m.events[:]
+        rt = dict(getattr(data.obj, 'vstore', {}))
+    except (Unsupported, NeedEnum) as e:
+        broke.append('NTT n=%d: %s' % (n, e))
+        return (n, bad, nchk, broke)
+    if st != 'ok' or st2 != 'ok':
+        bad['A'] = 'transform call %s / %s' % (st, st2)
+    else:
+        I = Intervals(lambda nm, off, size: (0, (1 << (8 * size)) - 1), fmt)
+
+        def bound(t):
+            r_ = I.ev_all([t])[0]
+            return r_[1] if r_ is not None and r_[0] >= 0 else None
+
+        def val(store, off):
+            e = store.get(off)
+            if e is None:
+                return sym('in', 'data', off, 8)
+            return e[1]
+
+        for k in range(4):
+            q = qs[k]
+            mp = ModPoly(q, None, bound)
+            outs = [val(fwd, 32 * j + 8 * k) for j in range(n)]
+            ps = mp.of_many(outs)
+            try:
+                rows, err = linear_rows(mp, ps, n, k)
+            except Unsupported as e:
+                broke.append('NTT n=%d prime %d: %s' % (n, k + 1, e))
+                bad.setdefault('A', 'not decided')
+                continue
+            nchk += n
+            if err:
+                bad.setdefault('A', 'prime %d: %s' % (k + 1, err))
+                continue
+            # evaluation map
+            psis = []
+            for j, row in enumerate(rows):
+                if row.get(0, 0) != 1:
+                    bad.setdefault('B', 'prime %d: output %d has coefficient %d on x_0 (expected 1)' % (k + 1, j, row.get(0, 0)))
+                    break
+                psi = row.get(1, 0) if n > 1 else 0
+                psis.append(psi)
+                pw = 1
+                for i in range(n):
+                    if row.get(i, 0) != pw:
+                        bad.setdefault('B', 'prime %d: output %d, coefficient of x_%d is %d, not psi^%d = %d' % (
+                            k + 1, j, i, row.get(i, 0), i, pw))
+                        break
+                    pw = pw * psi % q
+                if n > 1 and pow(psi, n, q) != q - 1:
+                    bad.setdefault('B', 'prime %d: output %d evaluates at psi = %d with psi^n != -1' % (k + 1, j, psi))
+            if n > 1 and len(set(psis)) != n:
+                bad.setdefault('B', 'prime %d: evaluation points are not distinct' % (k + 1))
+            # round trip
+            outs2 = [val(rt, 32 * j + 8 * k) for j in range(n)]
+            ps2 = mp.of_many(outs2)
+            for j, p in enumerate(ps2):
+                exp = mp.of(sym('in', 'data', 32 * j + 8 * k, 8))
+                nchk += 1
+                if p != exp and mp.undecided(p):
+                    broke.append('NTT n=%d prime %d: round-trip lane %d contains an operation the rewriting does not model' % (n, k + 1, j))
+                    break
+                if p != exp:
+                    bad.setdefault('C', 'prime %d: lane %d after ntt+intt is %s, not the input lane' % (k + 1, j, mp.show(p)))
+                    break
+        # wrap-freedom of the whole forward+inverse DAG
+        I.ev_all([v for _, (s, v) in rt.items()])
+        if I.findings:
+            bad.setdefault('D', repr(I.findings[0])[:300])
+    return (n, bad, nchk, broke)
+
+
+def _ntt_job(n):
+    import sys
+    import threading
+    out = {}
+
+    def work():
+        try:
+            out['r'] = _ntt_one(ctx.lib(), primes(), n)
+        except Exception as e:  # noqa
+            out['r'] = (n, {}, 0, ['internal error: %r' % (e,)])
+
+    sys.setrecursionlimit(500000)
+    threading.stack_size(512 * 1024 * 1024)
+    t = threading.Thread(target=work)
+    t.start()
+    t.join()
+    return out.get('r', (n, {}, 0, ['worker died']))
+
+
 def ntt_algebra(L, R, qs, tier):
+    from concurrent.futures import ProcessPoolExecutor
     ns = [1, 2, 4, 8, 16, 32, 64] if tier == 'quick' else [1, 2, 4, 8, 16, 32, 64, 128, 256, 512]
     nchk = 0
-    for n in ns:
-        bad = {}
-        try:
-            c = Ctx(L, 'accel', expand=True, trusted=TRUSTED, values=True)
-            pre = c.construct('q120_new_ntt_bb_precomp', [n])
-            ipre = c.construct('q120_new_intt_bb_precomp', [n])
-            data = c.buf('data', 32 * n, 'inout')
-            st, _, _ = c.run('q120_ntt_bb_avx2', [pre, data])
-            del c.m.events[:]
-            fwd = dict(getattr(data.obj, 'vstore', {}))
-            st2, _, _ = c.run('q120_intt_bb_avx2', [ipre, data])
-            del c.m.events[:]
-            rt = dict(getattr(data.obj, 'vstore', {}))
-        except (Unsupported, NeedEnum) as e:
-            R.broke('NTT n=%d: %s' % (n, e))
-            continue
-        if st != 'ok' or st2 != 'ok':
-            bad['A'] = 'transform call %s / %s' % (st, st2)
-        else:
-            I = Intervals(lambda nm, off, size: (0, (1 << (8 * size)) - 1), fmt)
-
-            def bound(t):
-                r_ = I.ev_all([t])[0]
-                return r_[1] if r_ is not None and r_[0] >= 0 else None
-
-            def val(store, off):
-                e = store.get(off)
-                if e is None:
-                    return sym('in', 'data', off, 8)
-                return e[1]
-
-            for k in range(4):
-                q = qs[k]
-                mp = ModPoly(q, None, bound)
-                outs = [val(fwd, 32 * j + 8 * k) for j in range(n)]
-                ps = mp.of_many(outs)
-                try:
-                    rows, err = linear_rows(mp, ps, n, k)
-                except Unsupported as e:
-                    R.broke('NTT n=%d prime %d: %s' % (n, k + 1, e))
-                    bad.setdefault('A', 'not decided')
-                    continue
-                nchk += n
-                if err:
-                    bad.setdefault('A', 'prime %d: %s' % (k + 1, err))
-                    continue
-                # evaluation map
-                psis = []
-                for j, row in enumerate(rows):
-                    if row.get(0, 0) != 1:
-                        bad.setdefault('B', 'prime %d: output %d has coefficient %d on x_0 (expected 1)' % (k + 1, j, row.get(0, 0)))
-                        break
-                    psi = row.get(1, 0) if n > 1 else 0
-                    psis.append(psi)
-                    pw = 1
-                    for i in range(n):
-                        if row.get(i, 0) != pw:
-                            bad.setdefault('B', 'prime %d: output %d, coefficient of x_%d is %d, not psi^%d = %d' % (
-                                k + 1, j, i, row.get(i, 0), i, pw))
-                            break
-                        pw = pw * psi % q
-                    if n > 1 and pow(psi, n, q) != q - 1:
-                        bad.setdefault('B', 'prime %d: output %d evaluates at psi = %d with psi^n != -1' % (k + 1, j, psi))
-                if n > 1 and len(set(psis)) != n:
-                    bad.setdefault('B', 'prime %d: evaluation points are not distinct' % (k + 1))
-                # round trip
-                outs2 = [val(rt, 32 * j + 8 * k) for j in range(n)]
-                ps2 = mp.of_many(outs2)
-                for j, p in enumerate(ps2):
-                    exp = mp.of(sym('in', 'data', 32 * j + 8 * k, 8))
-                    nchk += 1
-                    if p != exp and mp.undecided(p):
-                        R.broke('NTT n=%d prime %d: round-trip lane %d contains an operation the rewriting does not model' % (n, k + 1, j))
-                        break
-                    if p != exp:
-                        bad.setdefault('C', 'prime %d: lane %d after ntt+intt is %s, not the input lane' % (k + 1, j, mp.show(p)))
-                        break
-            # wrap-freedom of the whole forward+inverse DAG
-            I.ev_all([v for _, (s, v) in rt.items()])
-            if I.findings:
-                bad.setdefault('D', repr(I.findings[0])[:300])
+    with ProcessPoolExecutor(max_workers=min(6, len(ns))) as ex:
+        results = list(ex.map(_ntt_job, sorted(ns, reverse=True)))
+    for n, bad, cnt, broke in sorted(results):
+        nchk += cnt
+        for b_ in broke:
+            R.broke(b_)
         for cl, rule in (('A', 'ntt-is-linear-mod-q'), ('B', 'ntt-is-evaluation-at-roots-of-X^n+1'),
                          ('C', 'intt-inverts-ntt-mod-q'), ('D', 'ntt-intt-no-wrap-on-64-bit-lanes')):
             subj = 'q120 ntt/intt n=%d' % n
